@@ -75,7 +75,10 @@ func (p *gcpPicker) Pick(info balancer.PickInfo) (balancer.PickResult, error) {
 				return balancer.PickResult{}, fmt.Errorf(
 					"failed to retrieve affinity key from request message: %v", err)
 			}
-			boundKey = a[0]
+			if len(a) > 0 {
+				// An empty repeated field carries no key: route like an unkeyed call.
+				boundKey = a[0]
+			}
 		}
 	}
 
